@@ -15,8 +15,8 @@ CHECKS = {
    note="payload leaves are i32; by-reference kinds use the documented `*~` form; into_existing on enums is outside C02's quantifier",
    technique=TECH_X + " + reference-model conformance through rustc and execution"),
  "C03": dict(level="model_checking", design="DESIGN.md §8 C03",
-   text="child direction: every prefix-closed subset of a path universe with prefix-colliding sibling names x 2-4 flat members assigned to nodes x leaf instructions x path-addressed ghosts (incl. ghost-only nodes) x EVERY permutation of the flat members; parameterised #[parent] with nested typed sub-paths in every permutation; bare #[parent] layouts - compiled through the real derive and executed for all 12 kinds, results compared leaf by leaf with the model",
-   note="all nodes are named structs, leaves i32, deviation-bounded exploration (bound recorded in evidence)",
+   text="child direction (named and positional twins): every prefix-closed subset of a path universe with prefix-colliding sibling names x 2-4 flat members assigned to nodes x leaf instructions x path-addressed ghosts (incl. ghost-only nodes) x EVERY permutation of the flat members; parameterised #[parent] with nested typed sub-paths in every permutation; bare #[parent] layouts - compiled through the real derive and executed for all 12 kinds, results compared leaf by leaf with the model",
+   note="a case is named all the way down or positional all the way down (tuple structs, index paths); leaves i32; deviation-bounded exploration (bound recorded in evidence)",
    technique=TECH_X + " + reference-model conformance through rustc and execution"),
  "C04": dict(level="model_checking", design="DESIGN.md §8 C04",
    text="every multiset of <= 3 of the 24 trait-instruction names over 1-2 counterparts in every order x 6 counterpart type forms x 4 error type forms x struct|enum: the multiset of generated impl headers (trait path, Self, argument, type Error), read through a real parser, must equal the reference tables M_appl o M_hdr transcribed from README:190-264",
